@@ -165,6 +165,21 @@ CLAIMED = {
    note="Trusted: Coq kernel; dump produced by the facade; SQL-level DROP/VACUUM page reuse is only observed through file sizes (C13).",
    technique="Coq proof (ownership checker soundness) + verified checker evaluated on implementation dumps + independent python ownership oracle",
    design="7 (C11)"),
+ "C12": dict(
+   text="Props/C12.v: for every cache capacity, every sequence of page allocations, writes, reads, pins, unpins and checkpoints and "
+        "every eviction order, the pager answers as a plain memory - a read returns the last value written - or with the explicit "
+        "out-of-memory error, after which nothing has changed (C12_cache, refinement proved over an executable model of "
+        "read_page / cache_frame / evict / flush); two capacities give equal answers wherever neither is out of memory "
+        "(C12_capacity_independent); the reference semantics has no configuration input and a checkpoint is the identity "
+        "(C12_reference).  On every run the same SQL workloads execute under four random configurations (page, cache, pool, "
+        "minimum keys, siblings) and must agree answer by answer (oracle independent of the model) and with RefDB; pager "
+        "operation sequences with 1-6 frames are compared with the cache model and with a python oracle.  Four defects found "
+        "this way were fixed (cache capacity reset by a checkpoint, eviction sweep not wrapping, VACUUM reading padding as a "
+        "version header, free-space pointer after shrinking a cell).",
+   note="Trusted: Coq kernel; cache model hand-written (victim choice abstracted); pool size / page size / balancing parameters "
+        "only through the SQL workloads; rows above a twentieth of the page are the recorded B+tree finding.",
+   technique="Coq refinement proof (pager cache = plain memory up to explicit OOM) + differential correspondence (pager facade) + cross-configuration agreement oracle on SQL workloads",
+   design="7 (C12)"),
 }
 NOT_YET = "not claimed yet: model and proofs under construction in this session (see DESIGN.md section 10, build order)"
 
